@@ -1797,9 +1797,9 @@ impl Node {
 
         state.allowlist = allowlist.into_iter().collect();
 
-        // create a payment state for each invoice state
+        // create a payment state for each invoice state, keeping the one restored with a preimage
         for h in state.invoices.keys() {
-            state.payments.insert(*h, RoutedPayment::new());
+            state.payments.entry(*h).or_insert_with(RoutedPayment::new);
         }
 
         let node = Node::new_from_persistence(config, node_id, seed, services, state);
